@@ -1,6 +1,7 @@
 #![allow(dead_code)]
 mod ast;
 mod c01;
+mod c03;
 mod c13;
 mod evidence;
 mod impl_;
@@ -51,6 +52,7 @@ fn main() {
     }
     let code = match id {
         "C01" => c01::run(&tier),
+        "C03" => c03::run(&tier),
         "C13" => c13::run(&tier),
         _ => {
             eprintln!("unknown check {}", id);
